@@ -45,10 +45,11 @@ Stacked(t, x) == SelectSeq(Body(t), LAMBDA ln : ln.cls \notin {"base", "entry"} 
 RECURSIVE Concat(_, _, _)
 Concat(ts, x, i) == IF i > Len(ts) THEN <<>> ELSE Stacked(ts[i], x) \o Concat(ts, x, i + 1)
 Keys(s)      == [i \in DOMAIN s |-> s[i].key]
+\* d = [x, names, raw (the directive line itself)]
 \* host after = host before (minus the directive line) with the stacked rules inserted, in the order given
 StackOK(d, before, after, targets) ==
     LET ins  == Keys(Concat(targets, d.x, 1))
-        hb   == Keys(SelectSeq(before, LAMBDA ln : ln.cls # "dir"))
+        hb   == Keys(SelectSeq(before, LAMBDA ln : ~(ln.cls = "dir" /\ ln.key = d.raw) /\ ln.cls # "stackmark"))     \* other directives of the host stay
         ha   == Keys(SelectSeq(after, LAMBDA ln : ln.cls # "stackmark"))
     IN  \E k \in 0..Len(hb) : ha = SubSeq(hb, 1, k) \o ins \o SubSeq(hb, k + 1, Len(hb))
 
